@@ -113,6 +113,7 @@ type spkOp struct {
 	Cluster *vw.ClusterSpec `json:"cluster,omitempty"`
 	Alive   []bool          `json:"alive,omitempty"`
 	Pick    int             `json:"pick,omitempty"`
+	Narrow  int             `json:"narrow,omitempty"` // svc-ips: 1 = keep only the first of the current addresses, 2 = keep only the second
 }
 
 type spkCase struct {
@@ -280,6 +281,9 @@ func genSpkCase(rt *rapid.T) spkCase {
 			op.Svc = rapid.IntRange(0, 3).Draw(rt, "svc")
 			s := spkSvc{IPs: genSpkIPs(rt, cur)}
 			op.New = &s
+			if rapid.IntRange(0, 3).Draw(rt, "narrow") == 0 {
+				op.Narrow = rapid.IntRange(1, 2).Draw(rt, "narrowTo") // a dual-stack service loses one of its addresses
+			}
 		case k == 6:
 			op.Kind = "svc-type"
 			op.Svc = rapid.IntRange(0, 3).Draw(rt, "svc")
@@ -893,7 +897,12 @@ func runSpk(c spkCase, tr *vw.Trace, j05, j09 bool) *vw.Violation {
 					withdraw = true
 					tr.Class("address-changed-or-cleared")
 				}
-				s.IPs = op.New.IPs
+				if op.Narrow > 0 && len(s.IPs) == 2 {
+					s.IPs = []string{s.IPs[op.Narrow-1]}
+					tr.Class("dual-stack-service-narrowed")
+				} else {
+					s.IPs = op.New.IPs
+				}
 				r.writeSvc(s)
 				r.fixStatuses()
 			}
